@@ -10,9 +10,40 @@ ALLOWED_AXIOMS = {"propext", "Classical.choice", "Quot.sound"}
 FORBIDDEN = re.compile(r"\b(sorry|admit|native_decide|bv_decide|implemented_by)\b|^\s*axiom\s|unsafe\s|maxHeartbeats\s+0\b")
 
 
+def theorems_in(path, module):
+    """fully qualified names of the public theorems of a Lean file (namespace tracking by `namespace` / `end`)"""
+    out, stack = [], []
+    body = strip_comments(open(os.path.join(LEAN, path)).read())
+    for ln in body.split("\n"):
+        m = re.match(r"\s*namespace\s+([\w\.]+)", ln)
+        if m:
+            stack.append(m.group(1))
+            continue
+        m = re.match(r"\s*end\s+([\w\.]+)\s*$", ln)
+        if m and stack and stack[-1] == m.group(1):
+            stack.pop()
+            continue
+        m = re.match(r"\s*(?:@\[[^\]]*\]\s*)?(private\s+|protected\s+)?theorem\s+([\w\.']+)", ln)
+        if m and not (m.group(1) or "").startswith("private"):
+            out.append({"name": ".".join(stack + [m.group(2)]), "module": module})
+    return out
+
+
 def obligations():
+    """obligations.json: per property, `theorems` (explicit) and/or `auto` (files whose public theorems all count)"""
     with open(os.path.join(LEAN, "obligations.json")) as f:
-        return json.load(f)
+        obl = json.load(f)
+    for prop, e in obl.items():
+        seen = {t["name"] for t in e.get("theorems", [])}
+        for item in e.get("auto", []):
+            ns = item.get("namespace")
+            for t in theorems_in(item["file"], item["module"]):
+                if ns and not t["name"].startswith(ns + "."):
+                    continue
+                if t["name"] not in seen:
+                    e.setdefault("theorems", []).append(t)
+                    seen.add(t["name"])
+    return obl
 
 
 def strip_comments(src):
@@ -68,9 +99,9 @@ def audit(prop, theorems):
     res = {}
     for t in theorems:
         res[t["name"]] = None
-    for m in re.finditer(r"'([^']+)' depends on axioms: \[([^\]]*)\]", out, flags=re.S):
+    for m in re.finditer(r"^'(\S+)' depends on axioms: \[([^\]]*)\]", out, flags=re.S | re.M):
         res[m.group(1)] = [a.strip() for a in m.group(2).replace("\n", " ").split(",") if a.strip()]
-    for m in re.finditer(r"'([^']+)' does not depend on any axioms", out):
+    for m in re.finditer(r"^'(\S+)' does not depend on any axioms", out, flags=re.M):
         res[m.group(1)] = []
     return res, out
 
